@@ -4,8 +4,8 @@
 Require Extraction.
 Require ExtrOcamlBasic.
 From B39 Require Import Lib.Base Lib.Bits Lib.Sha256 Lib.Sha512 Lib.Hmac Lib.Pbkdf2 Lib.Utf8 Lib.Nfkd.
-From B39 Require Import Model.GenTypes Model.Model Model.State Spec.Bip39Spec.
-From B39 Require Import Gen.Lang Gen.Gates Gen.Stringer Gen.Body.
+From B39 Require Import Model.GenTypes Model.Model Model.State Model.ToolModel Spec.Bip39Spec.
+From B39 Require Import Gen.Lang Gen.Gates Gen.Stringer Gen.Body Gen.Tool.
 
 Definition z_add := Z.add.
 Definition z_mul := Z.mul.
@@ -23,4 +23,5 @@ Extraction "model.ml"
   init_state api_step pure run
   lang_consts seed_prefix seed_iter seed_keylen
   bip39_encode bip39_decode spec_accepts bip39_seed mnemonic_salt ws_tokens itoa
-  canon_tables canon classify tbl_get split_at.
+  canon_tables canon classify tbl_get split_at
+  render go_list_literal.
